@@ -23,7 +23,9 @@ RULE = ("the delivery scripts of C06's proved space (coherent operation sets inj
         "kv.DB nodes, with 1-3 subscribers per node registered through DB.OnChange / NewObservable("
         "IgnoreHostLeaseholder).OnChange before the traffic, in the middle of it and after restarts; every subscriber's "
         "callbacks are collected after every step (FIFO marker barrier through splitter, relay and the async observer, "
-        "no sleeps). 14% of the scripts stall one subscriber (its handler blocks, 66-90 forwarded requests overflow its "
+        "no sleeps). 30% of the scripts add storage faults (the wrapped engine refuses to commit the next ingress "
+        "transaction that wrote something; the same delivery usually follows again: nothing may be handed for the failed "
+        "one, exactly once for the redelivery). 14% of the scripts stall one subscriber (its handler blocks, 66-90 forwarded requests overflow its "
         "64-slot buffer) next to subscribers that keep up and continue with 4-7 accepted batches on that node: the others "
         "must still be handed every change. Extra phase: two creators of one key (the known lease-path finding) where the only allowed code is "
         "'same (key, version, leaseholder) handed twice'. Non-trivial = some subscriber was handed >= 2 batches, a "
